@@ -14,6 +14,7 @@
 //     other *VM methods), "loader" (can reach class loading / parsing / running
 //     user code: LoadClass, LoadAndRun, …, or a call through a function value),
 //     or "other".
+//
 // A *VM method that never touches vm.mu and is unexported inherits the weakest
 // lock mode over its call sites in the package (a helper running under its
 // caller's lock); an exported one is reachable from anywhere, so it runs under
@@ -44,17 +45,39 @@ type registry struct {
 	nodeType   string          // type of the nodes of the guarded graph ("" = none)
 	nodeFields map[string]bool // guarded fields of nodeType, reached through ANY expression (x.children, x.paths)
 	frozen     map[string]bool // fields that are only assigned in the constructor (read without the lock)
+	outside    map[string]bool // fields that are outside C10's statement (listed in props/C10.json assumptions)
 	ctor       string          // constructor: the value is not shared yet
 	unsync     bool            // report scalar fields assigned with no lock
 }
 
+// Auxiliary state.  Every field of the registry's type that is none of: a guarded field, the mutex,
+// frozen, outside the statement — and every package-level variable of the package — is *auxiliary*:
+// state the translator has no table for.  When a method on the resolution path (one that reaches a
+// guarded field, directly or through other methods of the type) touches it, the answer of a lookup can
+// depend on it, so each such access is recorded (`auxFacts`) with the half of the mutex held there,
+// whether the field's type synchronises itself (sync.Map, atomic.*), and whether the same critical
+// section of the same method also accesses a guarded field.  `Model.Memo.auxViolations` states the
+// discipline: plain state obeys the lock like a guarded map; a self-synchronised container may be READ
+// anywhere but is UPDATED only inside a critical section that also accesses the registry (so that what
+// it records was true of the registry when it was recorded, and every invalidation is ordered with the
+// registry write).
+type auxFact struct {
+	method, field, kind string
+	held                mode
+	sec                 int // number of the critical section inside the method (0: the mode on entry)
+	sync, withReg       bool
+}
+
 var registries = []*registry{
 	{out: "C10VmLocks", dir: "runtime", file: "vm.go", typ: "VM", mutex: "mu", ctor: "NewVM", unsync: true,
+		frozen: map[string]bool{"parser": true, "ctx": true},
+		outside: map[string]bool{"acl": true, "exceptionHandler": true, "inExceptionHandler": true, "shutdownCallbacks": true,
+			"shutdownRunOnce": true, "callDepth": true, "httpRoutes": true},
 		doc: "Lock facts of `runtime/vm.go`: per method of `*VM`, every access to a registry map with\nthe half of `vm.mu` held at that point, and every call made while the lock is held.",
 		fields: map[string]bool{"classMap": true, "interfaceMap": true, "funcMap": true, "constantMap": true,
 			"globalVars": true, "phpFileCache": true, "compiledFiles": true}},
 	{out: "C10PathLocks", dir: "parser", file: "class_path_manager.go", typ: "DefaultClassPathManager", mutex: "mu", ctor: "NewDefaultClassPathManager",
-		doc: "Lock facts of `parser/class_path_manager.go` (the class-path manager every parser clone, VM and TempVM of the\nprocess shares): per method of `*DefaultClassPathManager`, every access to the namespace tree — the `children`\nmap and the `paths` slice of any `NamespaceNode` — with the half of `m.mu` held at that point (helpers such as\n`findNamespaceNode`, which memoises discovered sub-namespaces, inherit the lock of their call sites), and\nevery call made while the lock is held.",
+		doc:    "Lock facts of `parser/class_path_manager.go` (the class-path manager every parser clone, VM and TempVM of the\nprocess shares): per method of `*DefaultClassPathManager`, every access to the namespace tree — the `children`\nmap and the `paths` slice of any `NamespaceNode` — with the half of `m.mu` held at that point (helpers such as\n`findNamespaceNode`, which memoises discovered sub-namespaces, inherit the lock of their call sites), and\nevery call made while the lock is held.",
 		fields: map[string]bool{}, nodeType: "NamespaceNode", nodeFields: map[string]bool{"children": true, "paths": true},
 		frozen: map[string]bool{"root": true}},
 }
@@ -97,12 +120,21 @@ type fact struct {
 	method, mp, kind string
 	held             mode
 }
+
+// set for the registry being analysed: auxiliary fields (name → self-synchronised?), package-level variables
+var auxFields map[string]bool // auxiliary field of the registry type → its type synchronises itself
+var pkgVars map[string]bool   // package-level variable of the package → its type synchronises itself
+var topSpecs map[any]bool
+
+var syncReaders = map[string]bool{"Load": true, "Range": true, "Len": true}
+
 type call struct {
 	method, callee string
 	held           mode
 	last           string // final selector / identifier
 	onRecv         bool   // vm.<last>(…)
 	plainIdent     bool
+	sec            int // critical section of the caller in which the call is made
 }
 
 type walker struct {
@@ -115,6 +147,48 @@ type walker struct {
 	deferred bool
 	cur      mode // mode at the expression being walked (for isMap's walk of the node expression)
 	pkgFuncs map[string]bool
+	sec      int          // critical sections entered so far in this method
+	aux      []auxFact    // accesses of auxiliary state
+	regSecs  map[int]bool // sections (by number) in which a guarded field is accessed
+}
+
+// isAux recognises recv.<auxiliary field> and package-level variables of the package
+func (w *walker) isAux(e ast.Expr) (string, bool) {
+	switch t := e.(type) {
+	case *ast.SelectorExpr:
+		if id, ok := t.X.(*ast.Ident); ok && id.Name == w.recv {
+			if _, ok := auxFields[t.Sel.Name]; ok {
+				return t.Sel.Name, true
+			}
+		}
+	case *ast.Ident:
+		if _, ok := pkgVars[t.Name]; ok && (t.Obj == nil || (t.Obj.Kind == ast.Var && topSpecs[t.Obj.Decl])) {
+			return "var " + t.Name, true
+		}
+	}
+	return "", false
+}
+
+func (w *walker) auxAccess(name, kind string, m mode) {
+	sec := w.sec
+	if m == mNone {
+		sec = -1
+	}
+	sync := auxFields[name]
+	if strings.HasPrefix(name, "var ") {
+		sync = pkgVars[name[4:]]
+	}
+	w.aux = append(w.aux, auxFact{method: w.method, field: name, kind: kind, held: m, sec: sec, sync: sync})
+}
+
+func (w *walker) addFact(f fact) {
+	w.facts = append(w.facts, f)
+	if f.held != mNone {
+		if w.regSecs == nil {
+			w.regSecs = map[int]bool{}
+		}
+		w.regSecs[w.sec] = true
+	}
 }
 
 func (w *walker) bad(pos token.Pos, fset *token.FileSet, what string) {
@@ -190,7 +264,16 @@ func (w *walker) expr(e ast.Expr, m mode, lhs bool) {
 			if lhs {
 				k = "wr"
 			}
-			w.facts = append(w.facts, fact{w.method, mp, k, m})
+			w.addFact(fact{w.method, mp, k, m})
+			w.expr(t.Index, m, false)
+			return
+		}
+		if ax, ok := w.isAux(t.X); ok {
+			k := "rd"
+			if lhs {
+				k = "wr"
+			}
+			w.auxAccess(ax, k, m)
 			w.expr(t.Index, m, false)
 			return
 		}
@@ -199,7 +282,15 @@ func (w *walker) expr(e ast.Expr, m mode, lhs bool) {
 	case *ast.SelectorExpr:
 		if mp, ok := w.isMap(t); ok {
 			// the map value itself escapes or is replaced: treat as a write
-			w.facts = append(w.facts, fact{w.method, mp, "wr", m})
+			w.addFact(fact{w.method, mp, "wr", m})
+			return
+		}
+		if ax, ok := w.isAux(t); ok {
+			k := "rd"
+			if lhs {
+				k = "wr"
+			}
+			w.auxAccess(ax, k, m)
 			return
 		}
 		w.expr(t.X, m, false)
@@ -214,14 +305,14 @@ func (w *walker) expr(e ast.Expr, m mode, lhs bool) {
 				if id.Name == "delete" {
 					k = "wr"
 				}
-				w.facts = append(w.facts, fact{w.method, mp, k, m})
+				w.addFact(fact{w.method, mp, k, m})
 				for _, a := range t.Args[1:] {
 					w.expr(a, m, false)
 				}
 				return
 			}
 		}
-		c := call{method: w.method, callee: exprString(t.Fun), held: m}
+		c := call{method: w.method, callee: exprString(t.Fun), held: m, sec: w.sec}
 		switch f := t.Fun.(type) {
 		case *ast.Ident:
 			c.last, c.plainIdent = f.Name, true
@@ -229,6 +320,18 @@ func (w *walker) expr(e ast.Expr, m mode, lhs bool) {
 			c.last = f.Sel.Name
 			if id, ok := f.X.(*ast.Ident); ok && id.Name == w.recv {
 				c.onRecv = true
+			}
+			if ax, ok := w.isAux(f.X); ok {
+				// a method of the auxiliary value: Load / Range / Len read it, anything else may change it
+				k := "wr"
+				if syncReaders[f.Sel.Name] {
+					k = "rd"
+				}
+				w.auxAccess(ax, k, m)
+				for _, a := range t.Args {
+					w.expr(a, m, false)
+				}
+				return
 			}
 			w.expr(f.X, m, false)
 		default:
@@ -248,6 +351,10 @@ func (w *walker) expr(e ast.Expr, m mode, lhs bool) {
 		w.expr(t.X, m, false)
 		w.expr(t.Y, m, false)
 	case *ast.UnaryExpr:
+		if ax, ok := w.isAux(t.X); ok && t.Op == token.AND {
+			w.auxAccess(ax, "wr", m) // the address escapes
+			return
+		}
 		w.expr(t.X, m, false)
 	case *ast.StarExpr:
 		w.expr(t.X, m, false)
@@ -267,7 +374,15 @@ func (w *walker) expr(e ast.Expr, m mode, lhs bool) {
 	case *ast.KeyValueExpr:
 		w.expr(t.Key, m, false)
 		w.expr(t.Value, m, false)
-	case *ast.Ident, *ast.BasicLit, *ast.ArrayType, *ast.MapType, *ast.FuncType, *ast.InterfaceType, *ast.StructType, *ast.ChanType:
+	case *ast.Ident:
+		if ax, ok := w.isAux(t); ok {
+			k := "rd"
+			if lhs {
+				k = "wr"
+			}
+			w.auxAccess(ax, k, m)
+		}
+	case *ast.BasicLit, *ast.ArrayType, *ast.MapType, *ast.FuncType, *ast.InterfaceType, *ast.StructType, *ast.ChanType:
 	default:
 		w.shape = append(w.shape, fmt.Sprintf("%s: unhandled expression %T", w.method, e))
 	}
@@ -299,12 +414,14 @@ func (w *walker) block(stmts []ast.Stmt, m mode) mode {
 					w.shape = append(w.shape, w.method+": Lock while already holding vm.mu")
 				}
 				m = mW
+				w.sec++
 			case "RLock":
 				w.usesMu = true
 				if m != mNone {
 					w.shape = append(w.shape, w.method+": RLock while already holding vm.mu")
 				}
 				m = mR
+				w.sec++
 			case "Unlock":
 				if m != mW || w.deferred {
 					w.shape = append(w.shape, w.method+": Unlock without matching Lock")
@@ -399,7 +516,7 @@ func (w *walker) block(stmts []ast.Stmt, m mode) mode {
 		case *ast.RangeStmt:
 			w.cur = m
 			if mp, ok := w.isMap(s.X); ok {
-				w.facts = append(w.facts, fact{w.method, mp, "rd", m})
+				w.addFact(fact{w.method, mp, "rd", m})
 			} else {
 				w.expr(s.X, m, false)
 			}
@@ -510,7 +627,7 @@ func unknownMutexes(repo string) []string {
 
 func analyse(a ex.Args, r *registry) {
 	reg, maps = r, r.fields
-	apiFacts = nil
+	apiFacts, auxOut, auxDeclOut = nil, nil, nil
 	var shape []string
 	fset, files, err := ex.ParseDir(a.Repo, r.dir)
 	if err != nil || files[r.file] == nil {
@@ -523,13 +640,36 @@ func analyse(a ex.Args, r *registry) {
 		shape = append(shape, unknownMutexes(a.Repo)...)
 	}
 	pkgFuncs := map[string]bool{}
+	auxFields, pkgVars, topSpecs = map[string]bool{}, map[string]bool{}, map[any]bool{}
+	selfSync := func(t string) bool {
+		t = strings.TrimPrefix(t, "*")
+		return t == "sync.Map" || strings.HasPrefix(t, "atomic.")
+	}
+	var auxDecl []string // "<field> <type>" of every auxiliary field / package-level variable (reported only)
 	for _, f := range files {
 		for _, d := range f.Decls {
 			if fd, ok := d.(*ast.FuncDecl); ok && fd.Recv == nil {
 				pkgFuncs[fd.Name.Name] = true
 			}
+			if gd, ok := d.(*ast.GenDecl); ok && gd.Tok == token.VAR {
+				for _, sp := range gd.Specs {
+					vs := sp.(*ast.ValueSpec)
+					topSpecs[vs] = true
+					for _, n := range vs.Names {
+						if n.Name == "_" {
+							continue
+						}
+						ty := "?"
+						if vs.Type != nil {
+							ty = ex.TypeString(vs.Type)
+						}
+						pkgVars[n.Name] = selfSync(ty)
+					}
+				}
+			}
 		}
 	}
+
 	// do the structs still look as expected?
 	foundMu, foundNode := false, r.nodeType == ""
 	ast.Inspect(files[r.file], func(n ast.Node) bool {
@@ -556,6 +696,10 @@ func analyse(a ex.Args, r *registry) {
 				}
 			}
 			for n, t := range have {
+				if n != r.mutex && !maps[n] && !r.frozen[n] && !r.outside[n] {
+					auxFields[n] = selfSync(t)
+					auxDecl = append(auxDecl, n+" "+t)
+				}
 				if strings.HasPrefix(t, "map[") && !maps[n] {
 					shape = append(shape, r.typ+"."+n+" is a map the translator does not know")
 				}
@@ -628,6 +772,20 @@ func analyse(a ex.Args, r *registry) {
 			return true
 		})
 	}
+	// auxiliary fields used outside the methods of the type in its file (by field name, on any expression)
+	for name, f := range files {
+		ast.Inspect(f, func(n ast.Node) bool {
+			if fd, ok := n.(*ast.FuncDecl); ok && name == r.file && ((fd.Recv != nil && isMethod(fd)) || fd.Name.Name == r.ctor) {
+				return false
+			}
+			if s, ok := n.(*ast.SelectorExpr); ok {
+				if _, isAux := auxFields[s.Sel.Name]; isAux {
+					shape = append(shape, fmt.Sprintf("%s: auxiliary field %s of %s used outside the *%s methods of %s", name, s.Sel.Name, r.typ, r.typ, r.file))
+				}
+			}
+			return true
+		})
+	}
 	// node fields in other files of the package: only a selector on a value of the node type can
 	// mean the guarded field; without type information any `.children` / `.paths` selector is reported
 	if r.nodeType != "" {
@@ -645,6 +803,8 @@ func analyse(a ex.Args, r *registry) {
 				return true
 			})
 		}
+	}
+	if len(r.frozen) > 0 {
 		// frozen fields assigned after construction
 		for _, m := range methods {
 			ast.Inspect(m.fd.Body, func(n ast.Node) bool {
@@ -700,7 +860,7 @@ func analyse(a ex.Args, r *registry) {
 	entry := map[string]mode{}
 	helper := func(n string) bool {
 		w := first[n]
-		return w != nil && !locks[n] && !ast.IsExported(n) && len(w.facts) > 0
+		return w != nil && !locks[n] && !ast.IsExported(n) && (len(w.facts) > 0 || len(w.aux) > 0)
 	}
 	callers := map[string]int{}
 	for name, f := range files {
@@ -789,6 +949,50 @@ func analyse(a ex.Args, r *registry) {
 		}
 		visit(name)
 	}
+	// auxiliary state touched on the resolution path: methods that reach a guarded field (R0) and everything
+	// they call on the receiver, transitively
+	onPath := map[string]bool{}
+	{
+		reaches := map[string]bool{}
+		for _, f := range apiFacts {
+			reaches[f.method] = true
+		}
+		var mark func(n string)
+		mark = func(n string) {
+			if onPath[n] {
+				return
+			}
+			onPath[n] = true
+			for _, c := range callees[n] {
+				mark(c)
+			}
+		}
+		for n := range reaches {
+			mark(n)
+		}
+	}
+	var aux []auxFact
+	for _, m := range methods {
+		w := walk(m, entry[m.fd.Name.Name])
+		if !onPath[w.method] {
+			continue
+		}
+		regSecs := map[int]bool{}
+		for k := range w.regSecs {
+			regSecs[k] = true
+		}
+		for _, c := range w.calls {
+			// a helper that runs under this section's lock and accesses a guarded field
+			if c.onRecv && c.held != mNone && first[c.last] != nil && len(own[c.last]) > 0 && !locks[c.last] {
+				regSecs[c.sec] = true
+			}
+		}
+		for _, a := range w.aux {
+			a.withReg = a.sec >= 0 && regSecs[a.sec]
+			aux = append(aux, a)
+		}
+	}
+	auxOut, auxDeclOut = aux, auxDecl
 	classify := func(c call) string {
 		switch {
 		case c.onRecv && locks[c.last]:
@@ -827,10 +1031,12 @@ func analyse(a ex.Args, r *registry) {
 }
 
 var apiFacts []fact
+var auxOut []auxFact
+var auxDeclOut []string
 
 func write(out string, facts []fact, held []call, shape []string, classify func(call) string, unsync ...string) {
 	var sb strings.Builder
-	sb.WriteString("import Model.RW\n/-! " + reg.doc + " -/\nnamespace Generated." + reg.out + "\nopen Model.RW\n\n")
+	sb.WriteString("import Model.RW\nimport Model.Memo\n/-! " + reg.doc + " -/\nnamespace Generated." + reg.out + "\nopen Model.RW\n\n")
 	sb.WriteString("def facts : List Fact := [\n")
 	seen := map[fact]bool{}
 	var fl []string
@@ -891,6 +1097,28 @@ func write(out string, facts []fact, held []call, shape []string, classify func(
 		sb.WriteString(strings.Join(ul, ", "))
 		sb.WriteString("]\n")
 	}
+	sb.WriteString("\n/-- accesses of AUXILIARY state — a field of `" + reg.typ + "` the translator has no table for, or a package-level\nvariable — by the methods on the resolution path: ⟨method, field, kind, lock held, the field's type synchronises\nitself (sync.Map, atomic.*), the same critical section of the method also accesses a guarded field⟩ -/\ndef auxFacts : List Model.Memo.AuxFact := [")
+	seenX := map[string]bool{}
+	var xl []string
+	for _, a := range auxOut {
+		l := fmt.Sprintf("\n  ⟨%s, %s, .%s, %s, %v, %v⟩", ex.LeanString(a.method), ex.LeanString(a.field), a.kind, a.held.lean(), a.sync, a.withReg)
+		if !seenX[l] {
+			seenX[l] = true
+			xl = append(xl, l)
+		}
+	}
+	sb.WriteString(strings.Join(xl, ","))
+	if len(xl) > 0 {
+		sb.WriteString("\n")
+	}
+	sb.WriteString("]\n\n/-- auxiliary fields of `" + reg.typ + "` with their types (reported only) -/\ndef auxFields : List String := [")
+	sort.Strings(auxDeclOut)
+	var dl []string
+	for _, d := range auxDeclOut {
+		dl = append(dl, ex.LeanString(d))
+	}
+	sb.WriteString(strings.Join(dl, ", "))
+	sb.WriteString("]\n")
 	sb.WriteString("\nend Generated." + reg.out + "\n")
 	if err := ex.WriteIfChanged(out, reg.out+".lean", sb.String()); err != nil {
 		fmt.Fprintln(os.Stderr, err)
